@@ -11,7 +11,7 @@ pub fn prop() -> Prop {
     Prop {
         id: "C05",
         level: "exploration",
-        rule: "complete enumerations of inputs to the public eval(): (1) all token strings of length <= L over the full token vocabulary (every keyword, operator and delimiter, an identifier, a builtin name, int, float, string, an illegal character, a lone &), joined by one space; (2) all texts of <= n characters over an alphabet with one representative of every lexer character class; (3) every char-boundary truncation and every single-token deletion, duplication, adjacent swap and replacement by every vocabulary token of every corpus program; (3b) every ordered pair of characters of a 125-character alphabet (all printable ASCII, tab / newline / carriage return, Unicode representatives of every class) in 13 positions: in a string literal raw and after a backslash, at the end of an unterminated literal, in a comment, in / after a word, a number, a literal, as an operator, in a print format; (4) a directed boundary family (literal lengths, zero divisors and range ends, every arity mismatch up to 4x4, antwoord/stop/volgende at every position of a template, self-referential initialisers, multi-byte indexing at every index, size ladders across the 8- and 16-bit limits). Each input runs in an isolated worker under an address-space limit and a watchdog on an ordinary 8 MiB stack. Non-trivial = the input got past the lexer and parser (it compiled or failed later than parsing); distinct = distinct texts",
+        rule: "complete enumerations of inputs to the public eval(): (1) all token strings of length <= L over the full token vocabulary (every keyword, operator and delimiter, an identifier, a builtin name, int, float, string, an illegal character, a lone &), joined by one space; (2) all texts of <= n characters over an alphabet with one representative of every lexer character class; (3) every char-boundary truncation and every single-token deletion, duplication, adjacent swap and replacement by every vocabulary token of every corpus program; (3b) every ordered pair of characters of a 125-character alphabet (all printable ASCII, tab / newline / carriage return, Unicode representatives of every class) in 13 positions: in a string literal raw and after a backslash, at the end of an unterminated literal, in a comment, in / after a word, a number, a literal, as an operator, in a print format; (4) a directed boundary family (literal lengths, zero divisors and range ends, every arity mismatch up to 4x4, antwoord/stop/volgende at every position of a template, self-referential initialisers, multi-byte indexing at every index, size ladders across the 8- and 16-bit limits). Each input runs in an isolated worker under an address-space limit and a watchdog on an ordinary 8 MiB stack. Non-trivial = the input got past the lexer and parser (it compiled or failed later than parsing); distinct = distinct texts; values that contain themselves or each other (six shapes: self, mutual, ring of three, through a fresh list, two equal rings, a diamond of depth 12) under every operator in 9 operand arrangements, every builtin with 1 / 2 / nested arguments, indexing, element assignment, rendering and as the result",
         assumptions: &[
             "an instruction-budget exhaustion is accepted only for inputs that spell out a loop or a function (zolang / functie)",
             "long random noise is outside what enumeration reaches; only the stated bounded spaces are covered",
@@ -204,8 +204,41 @@ fn edits(sh: &mut Shard) {
     });
 }
 
+/// Values that contain themselves or each other (a list in itself, two lists in each other, a ring of three, a
+/// list in a fresh list in itself, two separate rings of the same shape, a diamond of depth 12) under every
+/// operator, every builtin, indexing, element assignment, and as the program's result: an answer or an error.
+fn cyclic_values(sh: &mut Shard) {
+    let b = 2_000_000;
+    let shapes: [(&str, &str, &str); 6] = [
+        ("stel a = [0]; a[0] = a; stel b = a", "a", "b"),
+        ("stel a = [0]; stel b = [a]; a[0] = b", "a", "b"),
+        ("stel a = [0, 1]; stel b = [a, 2]; stel c = [b, 3]; a[0] = c", "a", "c"),
+        ("stel a = [0]; a[0] = [a]; stel b = a[0]", "a", "b"),
+        ("stel a = [0]; a[0] = a; stel b = [0]; b[0] = b", "a", "b"),
+        ("stel a = [1]; stel k = 0; zolang k < 12 { a = [a, a]; k += 1 } stel b = [a[0], a[1]]", "a", "b"),
+    ];
+    for (setup, x, y) in shapes {
+        for op in ["+", "-", "*", "/", "%", "<", "<=", ">", ">=", "==", "!=", "&&", "||"] {
+            for (l, r) in [(x, x), (x, y), (y, x), (x, "a[0]"), ("a[0]", y), ("[a]", "[b]"), (x, "[a]")] {
+                case(sh, "cyclic-values", &format!("{setup}; {l} {op} {r}"), b);
+            }
+            case(sh, "cyclic-values", &format!("{setup}; als {x} {op} {y} {{ 1 }} anders {{ 2 }}"), b);
+            case(sh, "cyclic-values", &format!("{setup}; functie(p, q) {{ p {op} q }}({x}, {y})"), b);
+        }
+        for bi in ["print", "type", "bool", "int", "float", "string", "lengte"] {
+            case(sh, "cyclic-values", &format!("{setup}; {bi}({x})"), b);
+            case(sh, "cyclic-values", &format!("{setup}; {bi}({x}, {y})"), b);
+            case(sh, "cyclic-values", &format!("{setup}; {bi}([{x}, {y}])"), b);
+        }
+        for tail in ["a", "[a, b]", "a[a]", "a[0] = b; a", "b[0] = b; [a, b]", "!a", "-a", "a[0][0][0][0]", "print(\"{} {}\", a, b)", "stel s = string(a); lengte(s)", "a = 1; b", "functie f(p) { p[0] = p; p } f(b)"] {
+            case(sh, "cyclic-values", &format!("{setup}; {tail}"), b);
+        }
+    }
+}
+
 fn directed(sh: &mut Shard, tier: Tier) {
     let b = 2_000_000;
+    cyclic_values(sh);
     // literal lengths
     for n in 1..=40usize {
         for d in ["9", "1"] {
